@@ -260,7 +260,7 @@ INLINES = [
     ('REQUIRES', True, 'a'), ('REQUIRES', False, 'a'), ('REQUIRES', True, 'm'),
     ('IGNORE_WANT', True, None), ('ELLIPSIS', False, None),
 ]
-WANTS = ['none', 'ok', 'wrong', 'ell']
+WANTS = ['none', 'ok', 'wrong', 'ell', 'all']      # 'all': everything printed since the previous want in the text
 OPTIONS = ['+SKIP', '-SKIP', '-ELLIPSIS', '+IGNORE_WANT', '+REQUIRES(env:XV_A==1)', '+REQUIRES(env:XV_M==1)']
 OPT_REQ = {'+REQUIRES(env:XV_A==1)': ('REQUIRES', True, 'a'), '+REQUIRES(env:XV_M==1)': ('REQUIRES', True, 'm')}
 
@@ -343,7 +343,7 @@ def render_event(ev, k, okwant=None):
     elif shape == 'decocls':
         lines = ['>>> @D(%d)%s' % (k, cf), ps2 + 'class G%d:' % k, ps2 + '    pass%s' % cl]
         out = []
-    if w == 'ok':
+    if w in ('ok', 'all'):
         lines += (okwant if okwant else out)
     elif w == 'wrong':
         lines += ['WRONG%d' % k]
@@ -468,14 +468,12 @@ class E2ESpec(Spec):
                 runs = False     # after the failing want nothing runs
             if not runs:
                 skipped_any = True
-                if w != 'none':
-                    if pending and verdict == 'run':
-                        amb = True
-                    pending = []
+                # "skipped statements have no effect at all and their wants are not checked": the output pending from
+                # earlier want-less statements stays pending, exactly as if the skipped statement and its want were deleted
             else:
                 trace += ev_trace(ev, k)
                 pending = pending + own
-                if shape in ('for', 'forblank'):
+                if shape in ('for', 'forblank') or w == 'all':
                     okwant = list(pending)
                     if amb and w == 'ok':
                         unspec = True
